@@ -689,7 +689,13 @@ def mp4(ctx, R):
     want = {"stream holding an index (TDSh)": True, "stream holding data (TDSm)": False, "path of a .tdms_index file": True,
             "path of a .tdms file without index": False, "path of a .tdms file with an index beside it": False}
     n = 0
-    for name, scn in READER_SCENARIOS:
+    from .rules_resource import model_unfit
+    unfit = model_unfit(prog, "reader.TdmsReader")
+    if unfit:
+        R.unrecognised("reader.TdmsReader.is_index_file_only::constructor scenarios", iio.where(), "the constructor's handle / path fields are not assigned in the "
+                       "modelled way: %s" % unfit)
+        n = 4
+    for name, scn in ([] if unfit else READER_SCENARIOS):
         if name not in want:
             raise AnchorMissing("constructor scenario %s" % name)
         finals = construct(prog, "reader.TdmsReader", scn)
